@@ -126,6 +126,9 @@ enum Status {
     Parked,
     Running,
     Waiting,
+    /// A main thread whose last worker has just finished: it is about to report `block.end`
+    /// and is counted in `expected` until it does, so that nobody is picked in between.
+    Returning,
     Done,
 }
 
@@ -393,7 +396,7 @@ pub fn run(
             // A main thread waiting for its workers is about to come back (block.end)
             // once none of them is left; it only stays away while a worker is stuck.
             let any_other_live = actors.values().any(|a| {
-                matches!(a.status, Status::Running | Status::New)
+                matches!(a.status, Status::Running | Status::New | Status::Returning)
                     || (a.status == Status::Waiting
                         && !actors
                             .values()
@@ -457,7 +460,7 @@ pub fn run(
             }
             Msg::Event { conn, ev } => {
                 if let Some(a) = actors.get_mut(&conn) {
-                    if a.status == Status::New {
+                    if a.status == Status::New || a.status == Status::Returning {
                         expected = expected.saturating_sub(1);
                         if a.is_main {
                             started[a.proc_idx] = true;
@@ -480,12 +483,28 @@ pub fn run(
                     if a.status == Status::New {
                         expected = expected.saturating_sub(1);
                     }
+                    let was_returning = a.status == Status::Returning;
                     a.status = Status::Done;
                     a.pending = None;
                     progress += 1;
                     if running == Some(conn) {
                         running = None;
                     }
+                    if was_returning {
+                        expected = expected.saturating_sub(1);
+                    }
+                    if !a.is_main {
+                        // the last worker of a waiting main thread: the main thread comes back
+                        let i = a.proc_idx;
+                        let workers_left = actors.values().any(|b| b.proc_idx == i && !b.is_main && b.status != Status::Done);
+                        if !workers_left
+                            && let Some(m) = actors.values_mut().find(|b| b.proc_idx == i && b.is_main && b.status == Status::Waiting)
+                        {
+                            m.status = Status::Returning;
+                            expected += 1;
+                        }
+                    }
+                    let a = actors.get_mut(&conn).unwrap();
                     if a.is_main {
                         let i = a.proc_idx;
                         started[i] = true;
@@ -493,7 +512,7 @@ pub fn run(
                         // All other connections of this process die with it.
                         for b in actors.values_mut() {
                             if b.proc_idx == i && b.status != Status::Done {
-                                if b.status == Status::New {
+                                if b.status == Status::New || b.status == Status::Returning {
                                     expected = expected.saturating_sub(1);
                                 }
                                 b.status = Status::Done;
